@@ -232,6 +232,11 @@ def _run_short(case, res):
     return res
 
 
+def interp_cases(tier):
+    """interpreted pass (NUMBA_DISABLE_JIT=1) on circles that do not contain the polar axis (those carry the known pole-branch findings)"""
+    return [{"kind": "pwg", "frame": 4, "tier": "quick", "cap": 8}, {"kind": "ext", "frame": 6, "tier": "quick", "cap": 12}, {"kind": "tilt", "frame": 4, "N": 1000, "tier": "quick"}]
+
+
 def selftest_case(tier):
     return {"kind": "pwg", "frame": 3, "tier": "quick"}
 
